@@ -33,6 +33,14 @@ def run(tier, seed, t0, only=None):
     if only:
         hs = [h for h in hs if any(h.oid.startswith(o) for o in only)]
     obs = K.run_harnesses(hs, tier)
+    from ..mirsym import binrun
+    from . import bingroups
+    bs = bingroups.c03_groups(tier)
+    if only:
+        bs = [g for g in bs if any(g['id'].startswith(o) for o in only)]
+    if bs:
+        binrun.refresh_mir()
+        obs += binrun.run(bs, ('C03',))
     enum = gen.binary_type_enum()
     documented = {i for _, i in info['doc_type_rows']}
     extra = {'undocumented_ids': sorted('%s=0x%02x' % (n, i) for n, i in enum.items() if i not in documented),
